@@ -178,12 +178,19 @@ def run(chk, tier, seed, replay=None):
         for n in (2, 3):
             n_id += 1
             cases.append({'id': 'p%d' % n_id, 'k': 3, 'N': n, 'order': [], 'verb': ['-v'], 'kind': 'spawn-failure'})
+        # children whose interpreters write to fd 2 when they shut down (after their report)
+        for n, vb in [(2, ['-v']), (3, ['-vv'])]:
+            n_id += 1
+            cases.append({'id': 'p%d' % n_id, 'k': 3, 'N': n, 'order': [], 'verb': vb, 'kind': 'shutdown-noise'})
         for c in cases:
             wrng = random.Random(seed * 31 + c['k'])
             if c['kind'] == 'finish-order':
                 c['world'] = make_world(c['id'], c['k'], wrng)
             elif c['kind'] == 'rendezvous':
                 c['world'] = make_world(c['id'], c['k'], wrng, gates=False, rendezvous=(1, 3))
+            elif c['kind'] == 'shutdown-noise':
+                c['world'] = make_world(c['id'], c['k'], wrng, gates=False)
+                c['world']['env']['fd2_at_exit'] = ['pool: 2 connections closed', 'bye']
             else:
                 c['world'] = make_world(c['id'], c['k'], wrng, gates=False)
                 c['world']['env']['spawn_fail'] = ['tests.L2']
